@@ -506,4 +506,84 @@ example :
     (run { max := 1, maxWait := some (timerTicks 500) }
       [.arrive 1 ⟨1000, .never⟩, .poll 1, .arrive 2 ⟨0, .ok⟩, .poll 2]).queue = [2] := by decide
 
+
+/-! ## capacity 0 — `max_concurrent_calls(0)` (the boundary value of the capacity knob)
+
+Nobody can ever get a slot, so every caller "cannot get a slot" — and the rejection rule is the ordinary one, with no
+shortcut: a caller is rejected with the timeout error exactly `max_wait` after its arrival (at once only if `max_wait`
+is zero), and without a `max_wait` it waits for ever. The step function has no case for capacity 0; these are the
+general theorems specialised, with the hypothesis "has not been handed a permit" discharged by the capacity. -/
+
+/-- With capacity 0 there is never a free permit, nobody is ever handed one, nobody is ever inside. -/
+theorem zero_capacity_never_admits (cfg : Cfg) (ops : List Op) (h0 : cfg.max = 0) :
+    (run cfg ops).free = 0 ∧ (run cfg ops).assigned = [] ∧ (run cfg ops).running = [] := by
+  have h := (inv_reachable cfg ops).count
+  rw [h0] at h
+  exact ⟨by omega, List.eq_nil_of_length_eq_zero (by omega), List.eq_nil_of_length_eq_zero (by omega)⟩
+
+/-- **Capacity 0 does not shorten the wait.** A waiting caller of a capacity-0 bulkhead with `max_wait = w`, arrived at
+`t`: polled before `t + w` nothing changes (it keeps waiting — it is NOT rejected at once); polled at or after `t + w` it
+is rejected, by exactly that poll. -/
+theorem zero_capacity_rejected_exactly_at_deadline (cfg : Cfg) (ops : List Op) (c w t : Nat) (h0 : cfg.max = 0)
+    (hq : c ∈ (run cfg ops).queue) (hw : cfg.maxWait = some w) (ht : lookup (run cfg ops).firstPoll c = some t) :
+    ((run cfg ops).now < t + w → stepS cfg (run cfg ops) (.poll c) = run cfg ops) ∧
+    (t + w ≤ (run cfg ops).now →
+      (stepS cfg (run cfg ops) (.poll c)).log = (run cfg ops).log ++ [Ev.result c .timeout]) := by
+  have ha : c ∉ (run cfg ops).assigned := by rw [(zero_capacity_never_admits cfg ops h0).2.1]; simp
+  exact ⟨fun h => waits_until_deadline cfg ops c w t hq ha hw ht h,
+         fun h => (rejected_at_deadline cfg ops c w t hq ha hw ht h).1⟩
+
+/-- Every rejection by a capacity-0 bulkhead comes from a poll made at an instant `≥ arrival + max_wait`. -/
+theorem zero_capacity_rejection_instant (cfg : Cfg) (ops : List Op) (c : Nat) (_h0 : cfg.max = 0)
+    (h : Ev.result c .timeout ∈ (run cfg ops).log) :
+    ∃ pre post w t, ops = pre ++ Op.poll c :: post ∧ cfg.maxWait = some w ∧
+      lookup (run cfg (pre ++ [.poll c])).firstPoll c = some t ∧ t + w ≤ (run cfg pre).now :=
+  rejection_instant cfg ops c h
+
+/-- Capacity 0 without a `max_wait`: a waiting caller waits for ever, whenever it is polled. -/
+theorem zero_capacity_waits_forever (cfg : Cfg) (ops : List Op) (c : Nat) (h0 : cfg.max = 0) (hw : cfg.maxWait = none)
+    (hq : c ∈ (run cfg ops).queue) : stepS cfg (run cfg ops) (.poll c) = run cfg ops := by
+  have ha : c ∉ (run cfg ops).assigned := by rw [(zero_capacity_never_admits cfg ops h0).2.1]; simp
+  exact waits_forever_without_max_wait cfg ops hw c hq ha
+
+/-- Non-vacuity (`max = 0`, `max_wait = 50`): caller 1 arrives at 0 and is queued — not rejected — by its first poll; at
+49 it is still queued with arrival 0 and deadline 50; the poll at 50 answers `err:timeout`. A caller arriving at 20 is
+due at 70. With `max_wait = 0` the first poll rejects. -/
+example :
+    let cfg : Cfg := { max := 0, maxWait := some 50 }
+    let ops := [Op.arrive 1 ⟨0, .ok⟩, .poll 1, .adv 20, .arrive 2 ⟨0, .ok⟩, .poll 2, .adv 29, .poll 1]
+    let s := run cfg ops
+    s.queue = [1, 2] ∧ s.log = [] ∧ lookup s.firstPoll 1 = some 0 ∧ lookup s.deadline 1 = some 50 ∧
+    lookup s.deadline 2 = some 70 ∧ s.now = 49 ∧
+    (run cfg (ops ++ [.adv 1, .poll 1, .poll 2])).log = [.result 1 .timeout] ∧
+    (run cfg (ops ++ [.adv 1, .poll 1, .poll 2, .adv 20, .poll 2])).log = [.result 1 .timeout, .result 2 .timeout] ∧
+    (run { max := 0, maxWait := some 0 } [.arrive 1 ⟨0, .ok⟩, .poll 1]).log = [.result 1 .timeout] := by
+  decide
+
+/-! ## very long waits: tokio's far-future horizon is not a wait limit
+
+`max_wait = none` is NO time limit (`never_rejected_without_max_wait`, `waits_forever_without_max_wait`: for every
+history, so for every length of the wait). The instants below are the ones at which a `Duration::MAX` timeout smuggled
+in for "none" would fire: tokio cannot represent `now + Duration::MAX` and arms its far-future timer, `now + 30 years`
+(of 365 days: 946 080 000 000 ms). A FINITE wait beyond that horizon (40 years) is honoured to the millisecond. -/
+
+/-- 30 years of 365 days in milliseconds: `tokio::time::Sleep::far_future()` is `now +` this -/
+def farFutureMs : Nat := 30 * 365 * 24 * 60 * 60 * 1000
+
+/-- Non-vacuity at the horizon: no `max_wait`; the waiter is still queued one tick before, at, and one tick after 30
+years, and is served when the holder goes away. With capacity 0 likewise. With `max_wait` = 40 years: still waiting at
+30 years and one tick before 40 years, rejected at 40 years. -/
+example :
+    let cfg : Cfg := { max := 1, maxWait := none }
+    let ops := [Op.arrive 1 ⟨0, .never⟩, .poll 1, .arrive 2 ⟨0, .ok⟩, .poll 2, .adv (farFutureMs - 1), .poll 2, .adv 1, .poll 2,
+                .adv 1, .poll 2]
+    farFutureMs = 946080000000 ∧
+    (run cfg ops).queue = [2] ∧ (run cfg ops).log = [.innerCall 1 0] ∧ (run cfg ops).now = farFutureMs + 1 ∧
+    (run cfg (ops ++ [.drop 1, .poll 2])).log.getLast? = some (.result 2 (.ok 1)) ∧
+    (run { max := 0, maxWait := none } [.adv 7, .arrive 1 ⟨0, .ok⟩, .poll 1, .adv farFutureMs, .poll 1]).queue = [1] ∧
+    (let cfg40 : Cfg := { max := 1, maxWait := some 1261440000000 }
+     let ops40 := [Op.arrive 1 ⟨0, .never⟩, .poll 1, .arrive 2 ⟨0, .ok⟩, .poll 2, .adv farFutureMs, .poll 2, .adv 315359999999, .poll 2]
+     (run cfg40 ops40).queue = [2] ∧ (run cfg40 (ops40 ++ [.adv 1, .poll 2])).log.getLast? = some (.result 2 .timeout)) := by
+  decide
+
 end TR.Props.C07
